@@ -111,9 +111,9 @@ def elaborate(tree):
                 assign([t for t in asg if t.endswith('!')])
     defaults = {}
     if 'wd' in used:
-        defaults[wd] = dflt_w
+        defaults[wd] = dflt_w if INT_DEFAULTS is None else INT_DEFAULTS[0] % (1 << W)
     if 'regd' in used:
-        defaults[regd] = dflt_r
+        defaults[regd] = dflt_r if INT_DEFAULTS is None else INT_DEFAULTS[1] % (1 << W)
     with pyrtl.conditional_assignment(defaults=defaults):
         walk(tree, ())
     # observation: unused targets get a plain driver so the block stays well-formed
@@ -178,14 +178,28 @@ def any_active(o, acts, target):
     return o.or_(*cs) if cs else False
 
 
+INT_DEFAULTS = None      # None: the defaults= entries are wires; (wire default, register default): Python ints
+
+
 def unwrap(t):
-    """a task is a tree, or {'W': data width, 'tree': tree}; sets the module-level data width"""
-    global W
+    """a task is a tree, or {'W': data width, 'tree': tree[, 'dflt': [int for the wire, int for the register]]};
+    sets the module-level data width and the kind of defaults= entries"""
+    global W, INT_DEFAULTS
+    INT_DEFAULTS = None
     if isinstance(t, dict):
-        W = t['W']
+        W = t.get('W', 3)
+        if t.get('dflt') is not None:
+            INT_DEFAULTS = tuple(t['dflt'])
         return t['tree']
     W = 3
     return t
+
+
+def default_of(which, val):
+    """the declared default of 'wd' / 'regd': the dflt_w / dflt_r input, or the literal int"""
+    if INT_DEFAULTS is None:
+        return val['dflt_w' if which == 'wd' else 'dflt_r']
+    return INT_DEFAULTS[0 if which == 'wd' else 1] % (1 << W)
 
 
 def replay(tree, inputs, reg0=0, regd0=0, mem0=None):
@@ -210,14 +224,14 @@ def replay(tree, inputs, reg0=0, regd0=0, mem0=None):
     step = {n: inputs.get(n, 0) for n in names}
     sim.step(step)
     acts = interp(IntOps, tree, dict(step, __regd=regd0), tags)
-    exp = dict(ow=expected(IntOps, acts, 'w', 0), owd=expected(IntOps, acts, 'wd', step['dflt_w']))
+    exp = dict(ow=expected(IntOps, acts, 'w', 0), owd=expected(IntOps, acts, 'wd', default_of('wd', step)))
     obs = dict(ow=sim.inspect('ow'), owd=sim.inspect('owd'))
     mem_before = {int(k): v for k, v in (mem0 or {}).items()}
     sim.step(step)
     obs['reg_next'] = sim.inspect('oreg')
     obs['regd_next'] = sim.inspect('oregd')
     exp['reg_next'] = expected(IntOps, acts, 'reg', reg0)
-    exp['regd_next'] = expected(IntOps, acts, 'regd', step['dflt_r'])
+    exp['regd_next'] = expected(IntOps, acts, 'regd', default_of('regd', step))
     a = step['maddr']
     old = mem_before.get(a, 0)
     exp['mem_word'] = expected(IntOps, acts, 'mem_write', old)
